@@ -39,10 +39,14 @@ func copyTags(m map[string]string) map[string]string {
 type Log struct {
 	mu  sync.Mutex
 	evs []Ev
-	On  func(*Ev) // optional observer, called with the lock held
+	On  func(*Ev)         // optional observer, called with the lock held
+	Pre func(kind string) // optional: called at the start of every reporter call, before the log is locked (may park the caller)
 }
 
 func (l *Log) add(e Ev) {
+	if l.Pre != nil {
+		l.Pre(e.Kind)
+	}
 	l.mu.Lock()
 	e.Seq = len(l.evs)
 	if l.On != nil {
@@ -109,10 +113,11 @@ func (r recReporterCloser) Close() error {
 // ---------------------------------------------------------------- cached recording reporter
 
 type recCached struct {
-	log    *Log
-	mu     sync.Mutex
-	nextID int
-	caps   tally.Capabilities
+	closeErr error
+	log      *Log
+	mu       sync.Mutex
+	nextID   int
+	caps     tally.Capabilities
 	// per handle metadata
 	Meta []Ev
 }
@@ -190,5 +195,5 @@ type recCachedCloser struct{ *recCached }
 
 func (r recCachedCloser) Close() error {
 	r.log.add(Ev{Kind: "close"})
-	return nil
+	return r.closeErr
 }
